@@ -19,6 +19,12 @@ ALPHA = list("()\";|\\#a ") + ["\n", "\r"]
 TOKEN = re.compile(r"""#\\.[A-Za-z0-9]*|"(?:[^"\\]|\\.)*"|\|[^|]*\||;[^\n]*|#\(|[()']|[^\s()";|']+""", re.S)
 
 
+def norm_msg(m):
+    """an error message as printed, blanks collapsed; source positions that some messages embed (a dump of the offending
+    statement) are not part of what must be the same however the forms are split across lines"""
+    return re.sub(r"Some\(\[\d+, \d+\]\)", "Some(_)", " ".join(m.split()))
+
+
 def unesc(s):
     return re.sub(r"\\u\{([0-9a-fA-F]+)\}", lambda m: chr(int(m.group(1), 16)), s)
 
@@ -55,7 +61,12 @@ def gen_session(rng):
              '(display "ab\ncd")', '(list "(\n" 1)', '(if (string? "p\nq)") 5 0)', "(quote |x\ny|)", '(define ml "one\ntwo")',
              "'|a(b|", '"str(ing"', "(car '())", "(undefined-zz)", "(vector-ref (vector 1) 5)", "(+ 1 2) ; comment (", "(list 1 (quote (2 . 3)) #(4))",
              # forms rejected before evaluation: what stands before them in the same submission has already been evaluated
-             "(if)", "(lambda)", "(let ((x)) x)", ")", "(if)", ")"]
+             "(if)", "(lambda)", "(let ((x)) x)", ")", "(if)", ")",
+             # macro definitions and their uses in LATER submissions (a definition made before a failing form of the same
+             # submission stays made)
+             "(define-syntax twice-zz (syntax-rules () ((twice-zz e) (* 2 e))))", "(twice-zz 21)", "(twice-zz (+ 1 2))",
+             "(define-syntax twice-zz (syntax-rules () ((twice-zz e) (* 2 e))))", "(twice-zz 4)",
+             "(define-syntax swap-zz (syntax-rules () ((swap-zz a b) (list b a))))", "(swap-zz 1 2)"]
     for _ in range(rng.randrange(1, 5)):
         forms.insert(rng.randrange(len(forms) + 1), rng.choice(extra))
     return forms
@@ -149,7 +160,7 @@ def run(rep, tier, rng):
             want_out += "".join(o for (o, _, _) in res)
             if res[-1][2]:
                 kk = res[-1][2].split(" ")
-                want_err.append((kk[0], " ".join(unesc(kk[1]).split()) if len(kk) > 1 else ""))
+                want_err.append((kk[0], norm_msg(unesc(kk[1])) if len(kk) > 1 else ""))
             elif res[-1][1]:
                 want_out += res[-1][1] + C.esc_out("\n")
             j += len(g)
@@ -162,7 +173,7 @@ def run(rep, tier, rng):
         outs = []
         for v, lines in enumerate(variants):
             rc, out, err = F.run_repl(binp, work, "\n".join(lines) + "\n")
-            kinds = [" ".join(l.split()) for l in err.split("\n") if l.strip()]      # the messages as printed
+            kinds = [norm_msg(l) for l in err.split("\n") if l.strip()]      # the messages as printed
             outs.append((rc, out, kinds))
         rep.count()
         rep.nontrivial(tuple(forms))
@@ -172,7 +183,7 @@ def run(rep, tier, rng):
         ref_out = ref[0][2:] if ref else None
         ref_errs = [x.split(" ")[1] for x in ref[1:]]
         # the messages this very build's library interface gives for the same forms (so rewording a message is no alarm)
-        ref_msgs = [" ".join(unesc(x.split(" ")[2]).split()) if len(x.split(" ")) > 2 else "" for x in ref[1:]]
+        ref_msgs = [norm_msg(unesc(x.split(" ")[2])) if len(x.split(" ")) > 2 else "" for x in ref[1:]]
         bad = False
         for v, (rc, out, kinds) in enumerate(outs):
             if rc != 0 or "panicked" in out:
@@ -191,7 +202,7 @@ def run(rep, tier, rng):
         if i in joined:
             lines, want_out, want_err = joined[i]
             rc, out, err = F.run_repl(binp, work, "\n".join(lines) + "\n")
-            said = [" ".join(l.split()) for l in err.split("\n") if l.strip()]
+            said = [norm_msg(l) for l in err.split("\n") if l.strip()]
             kinds = [k for k, _ in want_err]
             if rc != 0 or C.esc_out(out) != want_out or said != [m for _, m in want_err]:
                 rep.violation({"what": "a submission of several forms does not print exactly what its forms write plus the value of its "
